@@ -248,7 +248,7 @@ def _a_vectorised(chk):
     chk.count("order-abstract evaluations", n)
 
 
-def _scalar_run(direction, rep, syms, use_cubic=False, r=1, N=2, newton=1):
+def _scalar_run(direction, rep, syms, use_cubic=False, r=1, N=2, newton=1, time_rep=None):
     ga = syms
     cap = {}
 
@@ -264,7 +264,7 @@ def _scalar_run(direction, rep, syms, use_cubic=False, r=1, N=2, newton=1):
     for k in range(N):
         for d in range(2):
             states[k, d] = sp.Symbol(f"x{k}_{d}", real=True)
-    trep = {times[k]: sp.Integer(k) for k in range(N)}
+    trep = {times[k]: (sp.Integer(k) if time_rep is None else sp.sympify(time_rep[k])) for k in range(N)}
     trep.update(rep)
     ip = Interp(overrides={"_order_and_dedup_hits": fake_order}, decide=RegionDecider(trep))
     event = SymObj(None, {"direction": direction}, "event")
@@ -380,6 +380,33 @@ def _b_c_cubic_refine(chk):
     for label, repv, want_t in (("below 0", {g[0]: -3, g[1]: sp.Rational(-1, 100), g[2]: 50, g[3]: 40, al: sp.Rational(1, 1000)}, None),):
         pass
     _clamp_paths(chk)
+    # the scalar (segment-refine) detector rebuilds the hit state with its own inline cubic: on a NON-uniform grid its end slopes
+    # must be the centred differences over (t[k+1]-t[k-1]) and (t[k+2]-t[k])
+    gs = tuple(sp.Symbol(f"g{k}", real=True) for k in range(4))
+    rep4 = {gs[0]: -3, gs[1]: -1, gs[2]: 2, gs[3]: 4}
+    cap, tms, sts = _scalar_run(None, rep4, gs, use_cubic=True, r=1, N=4, newton=0, time_rep=[0, 1, 3, 4])
+    chk.count("functions partially evaluated")
+    if len(cap.get("cand_times", [])) != 1:
+        chk.fail("C15.c", f"{SB}::_detect_with_segment_refine[cubic state]", f"expected one hit on the interior segment, got {len(cap.get('cand_times', []))}")
+    else:
+        trep = {tms[k]: sp.sympify(v) for k, v in enumerate([0, 1, 3, 4])}
+        trep.update(rep4)
+        th = select_minmax(S(cap["cand_times"][0]), trep)
+        sst = (th - tms[1]) / (tms[2] - tms[1])
+        dtk = tms[2] - tms[1]
+        h00, h10, h01, h11 = (1 + 2 * sst) * (1 - sst) ** 2, sst * (1 - sst) ** 2, sst ** 2 * (3 - 2 * sst), sst ** 2 * (sst - 1)
+        xh = to_obj_array(cap["cand_states"][0])
+        bad = []
+        for d in range(2):
+            m0 = (sts[2, d] - sts[0, d]) / (tms[2] - tms[0]) * dtk
+            m1 = (sts[3, d] - sts[1, d]) / (tms[3] - tms[1]) * dtk
+            want = h00 * sts[1, d] + h10 * m0 + h01 * sts[2, d] + h11 * m1
+            tsub = {tms[k]: sp.sympify(v) for k, v in enumerate([0, 1, 3, 4])}     # concrete non-uniform grid; g and x stay symbolic
+            if sp.cancel(sp.together((select_minmax(S(xh[d]), trep) - want).subs(tsub))) != 0:
+                bad.append(d)
+        chk.check(not bad, "C15.c", f"{SB}::_detect_with_segment_refine[cubic state]",
+                  "the cubic hit state of the segment-refine detector is not the Hermite interpolant of (x_k, x_k+1) with centred slopes (x[k+1]-x[k-1])/(t[k+1]-t[k-1]) and "
+                  "(x[k+2]-x[k])/(t[k+2]-t[k]) evaluated at the same fraction as the hit time (non-uniform grid)", sample="non-uniform grid t = (0,1,3,4): xh = H(s*; x_k, x_k+1, centred slopes)")
 
 
 def _clamp_paths(chk):
